@@ -39,6 +39,11 @@ func (f *Frame) evalClause(cl *Clause, env map[string]Val, cur, old *State) Term
 			panic(r)
 		}
 	}()
+	if cl.Pkg != "" {
+		saved := f.clausePkg
+		f.clausePkg = cl.Pkg
+		defer func() { f.clausePkg = saved }()
+	}
 	v := f.eval(cl.E, &evalCtx{env: env, cur: cur, old: old})
 	if os.Getenv("WV_DEBUG") != "" {
 		fmt.Fprintf(os.Stderr, "clause %s => %s\n", cl.Text, trunc(v.T.S, 300))
@@ -731,6 +736,11 @@ func exprTypeName(e Expr) string {
 // applySpec expands a spec predicate / function.
 func (f *Frame) applySpec(d *Contract, args []Val, c *evalCtx) Val {
 	un := f.un
+	if d.Pkg != "" {
+		saved := f.clausePkg
+		f.clausePkg = d.Pkg
+		defer func() { f.clausePkg = saved }()
+	}
 	if len(args) != len(d.Params) {
 		f.fail("%s expects %d arguments", d.Name, len(d.Params))
 	}
@@ -985,6 +995,11 @@ func (f *Frame) evalLV(e Expr, c *evalCtx) *LVal {
 // lookupType resolves a type name relative to the function being verified (or, for interface-method
 // contracts evaluated without a function, relative to the package of the contract).
 func (f *Frame) lookupType(name string) types.Type {
+	if f.clausePkg != "" {
+		if t := f.un.eng.lookupTypeIn(name, f.clausePkg); t != nil {
+			return t
+		}
+	}
 	if f.fn != nil {
 		if t := f.un.eng.lookupType(name, f.fn); t != nil {
 			return t
@@ -1172,7 +1187,7 @@ func (f *Frame) evalGoals(cl *Clause, env map[string]Val, cur, old *State) []Ter
 	}
 	var out []Term
 	for _, p := range parts {
-		sub := &Clause{Kind: cl.Kind, Text: cl.Text, E: p, Pos: cl.Pos, Idx: cl.Idx, Tag: cl.Tag}
+		sub := &Clause{Kind: cl.Kind, Text: cl.Text, E: p, Pos: cl.Pos, Idx: cl.Idx, Tag: cl.Tag, Pkg: cl.Pkg}
 		func() {
 			defer func() {
 				if r := recover(); r != nil {
